@@ -49,7 +49,7 @@ def _mk_store(kind, root, tag, cache):
         dds.set_store("memory", **kw)
     else:
         dds.set_store("local", internal_dir=os.path.join(root, tag, "i"), data_dir=os.path.join(root, tag, "d"), **kw)
-    st = api._store_var
+    st = api._store()
     api._store_var = None
     return st
 
